@@ -104,6 +104,11 @@ var c15ImportPool = [][2]string{
 	{"a/io", "io"}, {"b/io", "io"}, {"c/io0", "io0"}, {"d/io1", "io1"}, {"x/template", "template"}, {"y/template", "template"}, {"z/template0", "template0"},
 	{"crypto/sha1", "sha1"}, {"p/sha", "sha"}, {"q/sha", "sha"}, {"r/sha", "sha"}, {"k/sha0", "sha0"}, {"m/http", "http"}, {"fmt", "fmt"}, {"io", "io"}, {"net/http", "http"},
 	{"text/template", "template"}, {"e/xio", "xio"}, {"f/htmpl", "htmpl"}, {"g/context", "context"}, {"h/fmt", "fmt"}, {"i/fmt", "fmt"}, {"j/fmt0", "fmt0"},
+	// paths with structure a registry might be tempted to interpret: vendored copies next to the
+	// real package, major-version and gopkg.in suffixes, a name that is not the last element,
+	// internal directories, case variants
+	{"example.com/app/vendor/github.com/x/y", "y"}, {"github.com/x/y", "y"}, {"vendor/golang.org/x/net/http2", "http2"}, {"golang.org/x/net/http2", "http2"},
+	{"gopkg.in/yaml.v3", "yaml"}, {"example.com/yaml", "yaml"}, {"github.com/x/go-y", "y"}, {"example.com/internal/y", "y"}, {"example.com/Y", "y"}, {"example.com/y/v2", "y"}, {"example.com/y", "y"},
 }
 
 func c15Name(r *core.Rng) string {
